@@ -10,6 +10,7 @@ from .. import gen, pkg
 from .C05 import _theta
 from .C06 import ref_freqs
 
+EPS = 2.2e-16
 ASSUMPTIONS = [
     'monotonicity (Cauchy interlacing): the (m,n) space is a subspace of the (m+dm,n+dn) space because the functions are '
     'hierarchical; asserted for the k-th lowest positive multiplier / frequency, k <= 6, when k0 is positive definite on its '
@@ -22,7 +23,23 @@ ASSUMPTIONS = [
 
 def _mats(case, m, n, N):
     c = dict(case, m=m, n=n)
-    p = pkg.make_panel(c)
+    pre = case.get('prelude')
+    if pre:
+        # the Panel object was used before for another lay-up; the lists are then edited in place to the one under test
+        L = case['lam']
+        c['lam'] = dict(L, stack=list(pre['stack']), plyts=list(pre['plyts']), uniform=False)
+        p = pkg.make_panel(c)
+        with package('matrices[prelude]'):
+            p.calc_k0(silent=True)
+            if pre['also_kM']:
+                p.calc_kM(silent=True)
+        if not p.plyts:
+            p.plyts = list(pre['plyts'])
+        for i in range(len(L['stack'])):
+            p.stack[i] = L['stack'][i]
+            p.plyts[i] = L['plyts'][i]
+    else:
+        p = pkg.make_panel(c)
     p.Nxx, p.Nyy, p.Nxy = N
     with package('matrices[m=%d,n=%d]' % (m, n)):
         K = dense(p.calc_k0(silent=True))
@@ -142,9 +159,21 @@ def check_closed(case, ctx):
     (exact_l, waves_l), (exact_w, waves_w) = closed_forms(Dm, a, b, Nx, Ny, mu, h)
     mn = case['mn']
     K, KG, KM = _mats(case, mn, mn, [-Nx, -Ny, 0.])
-    lams, freqs, act = _spectra(K, KG, KM, kmax=3)
     name = 'closed-form[%s]' % case['model']
+    if case['model'] == 'plate':
+        # B = 0 and a flat plate: bending uncouples exactly from the in-plane problem; the closed forms are for bending, so the in-plane
+        # (elastic, clamped-edge) modes - which may lie among the lowest for thick narrow plates - are split off
+        wi = np.arange(2, K.shape[0], 3)
+        oi = np.setdiff1d(np.arange(K.shape[0]), wi)
+        for M_, nm in ((K, 'k0'), (KG, 'kG0'), (KM, 'kM')):
+            ctx.close(nm + '.bending/in-plane coupling', M_[np.ix_(wi, oi)], np.zeros((wi.size, oi.size)), 0., bucket=name + '.uncoupled',
+                      atol=1e-12 * np.sqrt(np.max(np.abs(M_[np.ix_(wi, wi)])) * np.max(np.abs(M_[np.ix_(oi, oi)]))))
+        K, KG, KM = [M_[np.ix_(wi, wi)] for M_ in (K, KG, KM)]
+    lams, freqs, act = _spectra(K, KG, KM, kmax=3)
+    wtop = getattr(_spectra, 'wmax', 1.)
     ctx.nontrivial = True
+    ctx.label('plies:' + ('uniform' if len(set(L['plyts'])) == 1 else 'different-thickness'),
+              'object:' + ('reused-after-in-place-edit' if case.get('prelude') else 'fresh'))
     ctx.label('model:' + case['model'], 'mn:%d' % mn, 'aspect:%s' % ('<0.5' if a / b < 0.5 else '>2' if a / b > 2 else 'mid'))
     ctx.ok(lams is not None and len(lams) >= 1, name + '.setup', 'no positive multiplier / k0 not positive definite')
     for i in range(min(3, len(lams))):
@@ -164,7 +193,7 @@ def check_closed(case, ctx):
         ex = exact_w[i]
         exc = freqs[i] / ex - 1.
         ctx.metric('frequency-excess[mode %d, mn=%d]' % (i + 1, mn), max(exc, 0.))
-        if exc < -1e-8:
+        if exc < -1e-8 - 4 * EPS * (wtop / ex) ** 2:      # second term: rounding of the reference eigen-solve (eps * w_max^2 on w_i^2)
             raise Violation(name + '.lower-than-exact', 'frequency %d = %r is below the closed form %r (m=n=%d)' % (i + 1, freqs[i], ex, mn))
         if mn >= 2.5 * max(waves_w[:i + 1]) + 7 and exc > 1e-6:
             raise Violation(name + '.not-converged', 'frequency %d excess %.3e at m=n=%d (%d half-waves)' % (i + 1, exc, mn, waves_w[i]))
@@ -201,11 +230,21 @@ def _closed_strategy(draw, tier='quick'):
     half = [draw(st.sampled_from([0., 90.])) for _ in range(n)]
     t = draw(gen.logfl(1e-4, 3e-3))
     stack = half + half[::-1] if sym else [half[0]]
-    lam = {'stack': stack, 'plyts': [t] * len(stack), 'laminaprops': [prop] * len(stack), 'offset': 0., 'uniform': True}
+    if draw(st.booleans()):
+        plyts = [t] * len(stack)
+    else:   # plies of different thickness (kept symmetric about the mid-plane)
+        th = [t * draw(gen.fl(0.2, 3.)) for _ in range(n)]
+        plyts = th + th[::-1] if sym else [th[0]]
+    lam = {'stack': stack, 'plyts': plyts, 'laminaprops': [prop] * len(stack), 'offset': 0., 'uniform': len(set(plyts)) == 1}
+    prelude = None
+    if draw(st.integers(0, 3)) == 0:
+        prelude = {'stack': [90. - x if draw(st.booleans()) else x for x in stack], 'plyts': [q * draw(st.sampled_from([1., 2., 0.5])) for q in plyts],
+                   'also_kM': draw(st.booleans())}
     r = draw(gen.fl(0., 1.))
     mn = draw(st.sampled_from([6, 8, 10, 12] if tier == 'quick' else [8, 10, 12, 16, 16]))
     return {'model': model, 'a': a, 'b': b, 'm': mn, 'n': mn, 'lam': lam, 'flags': fl, 'uniform_form': False, 'r': None,
-            'alphadeg': None, 'y': None, 'mu': draw(gen.logfl(100., 5000.)), 'Nc': [r, 1. - r], 'mn': mn, 'sparse': draw(st.booleans())}
+            'alphadeg': None, 'y': None, 'mu': draw(gen.logfl(100., 5000.)), 'Nc': [r, 1. - r], 'mn': mn, 'sparse': draw(st.booleans()),
+            'prelude': prelude}
 
 
 SUBS = [
